@@ -1,3 +1,4 @@
+import IpcModel.GenRouter
 /-!
 # L7 `Router` — the router thread as a pure event processor, and the proxy that feeds it
 
@@ -19,6 +20,9 @@ deriving Repr, DecidableEq
 
 def fixed : Variant := ⟨false, false, false, false⟩
 def legacy : Variant := ⟨true, true, true, true⟩
+/-- the variant the translator reads from `src/router.rs` now (`GenRouter`: order of statements in the wake-up and `Shutdown` arms,
+the dedicated arm for a closed wake-up channel) -/
+def codeVariant : Variant := ⟨Gen.vBreakInnerOnly, Gen.vPanicOnWakeClosed, Gen.vAckBeforeDrop, Gen.vOneMsgPerWake⟩
 
 inductive RMsg | addRoute (r : Nat) | shutdown (caller : Nat)
 deriving Repr, DecidableEq
